@@ -27,8 +27,8 @@ func init() {
 				n = 1600
 			}
 			return fw.Meta{N: n, Level: "fault_enumeration", Chunk: 2, CaseTimeoutS: 600, MinNT: 30,
-				Rule:        "one case = one generated table (2..9 keys, one table in four incl. the empty key, values 1..60 bytes, some tables additionally carry empty and nil values; data compression none/gzip/snappy/lzw; index loader default/disk/skiplist/slice by case); damaged copies of its data file: every byte offset x {8 single-bit flips, 0x00, 0xFF, 0x91, 0x8d, 0x4c} (tables <= 2 KiB, seeded offsets + all header bytes beyond), every truncation length, every swap of two records. Each copy is read (a) with default options: open must fail or every Get/ScanRange/Scan step returns the written value; (b) with SkipHashCheckOnLoad+EnableHashCheckOnReads (both orders of the two options, before and after the other options): each Get/scan step errors or returns the written value. Every key is fetched twice in a row and once more after the scans on the same reader. A panic counts as a violation. Empty/nil values are only required to stay empty/nil under byte alterations of uncompressed (header-protected) tables. evaluations = damaged copies x 2 modes; non-trivial = table with >=2 non-empty values; distinct by table content hash",
-				MinObs:      map[string]int64{"damaged_copies": 20000, "rejected_at_open": 5000, "rejected_at_read": 2000, "served_original_value": 2000, "truncations": 2000, "record_swaps": 50, "tables_with_empty_or_nil_value": 5},
+				Rule:        "one case = one generated table (2..9 keys, one table in four incl. the empty key, values 1..60 bytes, some tables additionally carry empty and nil values; data compression none/gzip/snappy/lzw; index loader default/disk/skiplist/slice by case); damaged copies of its data file: every byte offset x {8 single-bit flips, 0x00, 0xFF, 0x91, 0x8d, 0x4c} (tables <= 2 KiB, seeded offsets + all header bytes beyond), every truncation length, every swap of two records. Each copy is read (a) with default options: open must fail or every Get/ScanRange/Scan step returns the written value; (b) with SkipHashCheckOnLoad+EnableHashCheckOnReads (both orders of the two options, before and after the other options): each Get/scan step errors or returns the written value. Every key is fetched twice in a row and once more after the scans on the same reader. A panic counts as a violation. Empty/nil values are only required to stay empty/nil under byte alterations of uncompressed (header-protected) tables. evaluations = damaged copies x 2 modes; non-trivial = table with >=2 non-empty values; distinct by table content hash Readers are opened with read buffers of 16, 64, 256, 4096 bytes or the default; every third damaged copy is also read as the NEWER member of a two-table stack (Get, Scan, ScanStartingAt, ScanRange): the older table's value must never be served for it.",
+				MinObs:      map[string]int64{"stacked_scan_steps_over_a_damaged_newer_table": 1000, "damaged_copies": 20000, "rejected_at_open": 5000, "rejected_at_read": 2000, "served_original_value": 2000, "truncations": 2000, "record_swaps": 50, "tables_with_empty_or_nil_value": 5},
 				Assumptions: []string{"a CRC32/CRC64 collision would be reported as a violation (probability negligible for the enumerated single-byte damage)"},
 			}
 		},
